@@ -233,6 +233,7 @@ func runC11(p *load.Program, r *oblig.Report) {
 	c.ruleR13()
 	c11DoUnsetsDeadline(p, r)
 	c11ApiVersionsCount(p, r)
+	c11ApiVersionsKeepsConn(p, r)
 	shareRules(r, "C11", "C11.R15 error exits of the response readers report what is left to drain (C17.R5)", func(sub *oblig.Report) { c17SizeThreading(p, sub) })
 }
 
